@@ -157,6 +157,37 @@ def _generate(api):
         L.append("Definition lib_%s_default : Z := %s.   (* usvg::WriteOptions::default() *)" % (fld, lm.group(1)))
     L.append("")
 
+    # ---------------------------------------------------------------- resources_dir resolution (both binaries)
+    L.append("Inductive res_src := ResExplicit | ResInputDir | ResNone.")
+    CANON = r"std::fs::canonicalize\(\w+\) \.ok\(\) \.and_then\(\|p\| p\.parent\(\)\.map\(\|p\| p\.to_path_buf\(\)\)\)"
+    SHAPES = [
+        # explicit option first, else the input file's directory, else none
+        (r"let resources_dir = match args\.resources_dir \{ Some\((?:ref )?v\) => Some\(v(?:\.clone\(\))?\), None => \{ "
+         r"if let InputFrom::File\(ref \w+\) = in_svg \{ " + CANON + r" \} else \{ None \} \} \};",
+         "if explicit then ResExplicit else if file_input then ResInputDir else ResNone"),
+        (r"let resources_dir = match args\.resources_dir \{ Some\((?:ref )?v\) => Some\(v(?:\.clone\(\))?\), None => \{ "
+         r"match in_svg \{ InputFrom::Stdin => None, InputFrom::File\(ref \w+\) => \{ " + CANON + r" \} \} \} \};",
+         "if explicit then ResExplicit else if file_input then ResInputDir else ResNone"),
+    ]
+    for tool, tsrc, fn in (('resvg', src, 'parse_args'), ('usvg', usrc, 'process')):
+        p_, r_, b_ = rs.find_fn(tsrc, fn)
+        b1 = re.sub(r"\s+", " ", b_)
+        if len(re.findall(r"let resources_dir\b", b1)) != 1:
+            raise U("%s %s(): expected exactly one `let resources_dir`" % (tool, fn))
+        rule = None
+        for pat, coq in SHAPES:
+            if re.search(pat, b1):
+                rule = coq
+        if rule is None:
+            raise U("%s %s(): the resolution of resources_dir has an unexpected shape (explicit --resources-dir must win, "
+                    "else the input file's directory, else none)" % (tool, fn))
+        # the resolved value must be what goes into usvg::Options (field init shorthand `resources_dir,`)
+        if not re.search(r"usvg::Options \{ resources_dir,", b1):
+            raise U("%s %s(): `usvg::Options { resources_dir, ..` not found" % (tool, fn))
+        L.append("(* crates/%s/src/main.rs :: %s, resolution of Options::resources_dir *)" % (tool, fn))
+        L.append("Definition %s_resources_dir (explicit file_input : bool) : res_src := %s." % (tool, rule))
+    L.append("")
+
     # ---------------------------------------------------------------- enum FitTo
     m = re.search(r"enum\s+FitTo\s*\{(.*?)\n\}", src, re.S)
     if not m:
